@@ -26,45 +26,51 @@ Print Assumptions C05_small_is_data.
 (* Reader side, one sample (w, sn) of an honest writer among ARBITRARY other traffic.
    ops is any operation sequence of well-typed field values (op_ok); the only hypotheses
    (op_honest) are about DATAFRAGs attributed to writer w: they carry w's fragment size fs, and
-   those with sequence number sn are fragments mk k = data_frag_msg sp sn k fs |sp| with
-   1 <= k <= num_frags.  Then, at every position where a fragment k of (w, sn) arrives, the
+   those with sequence number sn are mk k c = data_frags_msg sp sn k c fs |sp|, the DATAFRAG
+   carrying the c consecutive fragments k .. k+c-1 (1 <= k, 1 <= c <= 65535, k-1+c <= num_frags;
+   c = 1 is what RustDDS' writer emits, c > 1 what other vendors' writers may emit, payload = the
+   concatenation of those fragments' bytes).  kev_of_op reads (k, c) off the DATAFRAG's
+   fragment_starting_num / fragments_in_submessage; frag_nums k c = [k; ..; k+c-1].
+   Then, at every position where such a DATAFRAG of (w, sn) arrives, the
    repaired assembler returns exactly what the abstract per-sample specification prescribes for
    the events seen so far (krun: set of fragment numbers of the current attempt, reset by
-   completion and by garbage collection): header ++ value and nothing missing if k completes the
-   set, otherwise nothing and the complement as missing fragments.  No panic on the way. *)
+   completion and by garbage collection): header ++ value and nothing missing if k..k+c-1 complete
+   the set, otherwise nothing and the complement as missing fragments.  No panic on the way. *)
 Theorem C05_reassembly : forall w sn fs sp,
   1 <= fs <= 65535 -> fs < payload_size sp < 2 ^ 32 ->
-  forall pre o post k,
+  forall pre o post k c,
   Forall op_ok (pre ++ o :: post) ->
   Forall (op_honest w sn fs sp) (pre ++ o :: post) ->
-  kev_of_op w sn o = KFrag k ->
+  kev_of_op w sn o = KFrag k c ->
   nth (length pre) (run_ops new_datafrag 0 [] (pre ++ o :: post)) APanic
-  = expected fs sp (krun (total_frags (payload_size sp) fs) 0 k0 (map (kev_of_op w sn) pre)) k.
+  = expected fs sp (krun (total_frags (payload_size sp) fs) 0 k0 (map (kev_of_op w sn) pre)) k c.
 Proof. exact reassembly. Qed.
 Print Assumptions C05_reassembly.
 
 (* The same in elementary terms, for the first assembly of the sample: as long as no garbage
    collection event hit writer w and the fragment numbers that arrived do not cover 1..n, the
-   arrival of fragment k yields header ++ value iff k completes the set, and nothing before. *)
+   arrival of fragments k .. k+c-1 (in one DATAFRAG) yields header ++ value iff they complete the
+   set, and nothing before. *)
 Theorem C05_first_completion : forall w sn fs sp,
   1 <= fs <= 65535 -> fs < payload_size sp < 2 ^ 32 ->
-  forall pre o post k,
+  forall pre o post k c,
   Forall op_ok (pre ++ o :: post) ->
   Forall (op_honest w sn fs sp) (pre ++ o :: post) ->
-  kev_of_op w sn o = KFrag k ->
+  kev_of_op w sn o = KFrag k c ->
   no_gc (map (kev_of_op w sn) pre) ->
   covers (total_frags (payload_size sp) fs) (kfrags (map (kev_of_op w sn) pre)) = false ->
   nth (length pre) (run_ops new_datafrag 0 [] (pre ++ o :: post)) APanic
-  = if covers (total_frags (payload_size sp) fs) (k :: kfrags (map (kev_of_op w sn) pre))
+  = if covers (total_frags (payload_size sp) fs) (frag_nums k c ++ kfrags (map (kev_of_op w sn) pre))
     then AOut (Some (hv sp)) []
     else AOut None (missing_of (total_frags (payload_size sp) fs)
-                               (k :: kfrags (map (kev_of_op w sn) pre))).
+                               (frag_nums k c ++ kfrags (map (kev_of_op w sn) pre))).
 Proof. exact first_completion. Qed.
 Print Assumptions C05_first_completion.
 
 (* Whole honest runs (several writers, several samples, any interleaving, duplicates, garbage
-   collection): the observable behaviour of the assembler fed with the writer model's fragments
-   equals the specification computed from the arrival order alone. *)
+   collection; every arrival a DATAFRAG with one fragment — AFrag, the writer model's
+   data_frag_msg — or with several consecutive ones — AFrags, data_frags_msg): the observable
+   behaviour of the assembler equals the specification computed from the arrival order alone. *)
 Theorem C05_honest_run : forall ws arr,
   forallb (arrival_okb ws) arr = true ->
   run_ops new_datafrag 0 [] (map (to_op ws) arr) = spec_outs ws [] arr.
